@@ -38,6 +38,9 @@ type taskCase struct {
 	Overlap    bool   `json:"overlap_probe,omitempty"`
 	AsStage    bool   `json:"as_stage,omitempty"`
 	StageAllow bool   `json:"stage_allow_failure,omitempty"` // allow_failure of the stage (not of the task) when run as a stage
+	// Format: output format of the runner; every command then also runs an external program whose coloured output
+	// arrives in two writes (what the decorators do with it must not change which commands run)
+	Format string `json:"format,omitempty"`
 }
 
 type syncBuf struct {
@@ -77,6 +80,9 @@ func runTaskCase(a args, tcase taskCase, idx int, shared *runner.TaskRunner) {
 		cmd := fmt.Sprintf("printf \"c%d:$V\\n\"; printf \"c%d:$V\\n\" >> '%s'", i, i, trace)
 		if tcase.Overlap {
 			cmd = fmt.Sprintf("printf \"S%d:$V\\n\" >> '%s'; sleep 0.01; ", i, trace) + cmd
+		}
+		if tcase.Format != "" {
+			cmd = `sh -c 'printf "a\033[3"; sleep 0.03; printf "1mRED\033[0m\n"; printf "err\033[" >&2; printf "0m\n" >&2'; ` + cmd
 		}
 		if tcase.Fail[i] != 0 {
 			cmd += "; " + failCmd(tcase.How, tcase.Fail[i])
@@ -219,6 +225,9 @@ func runTaskCase(a args, tcase taskCase, idx int, shared *runner.TaskRunner) {
 	} else {
 		r := newQuietRunner()
 		r.Stdout = &so
+		if tcase.Format != "" {
+			r.OutputFormat = tcase.Format
+		}
 		err = r.Run(t)
 		lockedFinish(r.Finish)
 	}
@@ -279,7 +288,7 @@ func runTaskCase(a args, tcase taskCase, idx int, shared *runner.TaskRunner) {
 			trToks = append(trToks, x)
 		}
 	}
-	if shared == nil && strings.Join(soToks, " ") != strings.Join(trToks, " ") {
+	if shared == nil && tcase.Format == "" && strings.Join(soToks, " ") != strings.Join(trToks, " ") {
 		out.Viol("C06", "stdout-order-differs-from-trace", fmt.Sprintf("stdout tokens %v vs trace %v", soToks, trToks), cas)
 	}
 	if t.Skipped != wantSkipped {
@@ -465,6 +474,19 @@ func modeTask(a args) {
 			for k := 0; k < n; k++ {
 				st := 0
 				if rnd.Chance(40) {
+					st = rnd.Range(1, 255)
+				}
+				tcx.Fail = append(tcx.Fail, st)
+			}
+			cases = append(cases, tcx)
+		}
+		// every output format with external programs whose coloured output arrives in pieces
+		for i := 0; i < a.n(45, 450); i++ {
+			n := rnd.Range(1, 3)
+			tcx := taskCase{Commands: n, Variations: rnd.Intn(3), Allow: rnd.Bool(), Before: rnd.Intn(2), After: rnd.Intn(2), How: "exit", Format: []string{"raw", "prefixed"}[i%2]}
+			for k := 0; k < n; k++ {
+				st := 0
+				if rnd.Chance(25) {
 					st = rnd.Range(1, 255)
 				}
 				tcx.Fail = append(tcx.Fail, st)
